@@ -2,6 +2,7 @@
 package mon
 
 import (
+	"context"
 	"fmt"
 	"os"
 	"runtime"
@@ -103,6 +104,8 @@ func pick(tier string, quick, thorough int) int {
 }
 
 type Check func(run *evid.Run)
+
+var hxCtx = context.Background()
 
 func det(kv ...any) map[string]any {
 	m := map[string]any{}
